@@ -113,6 +113,15 @@ class C09(Prop):
                     pr["seq"] = be.p_list(z)
                 rec["probes"].append(pr)
             rec["layout1"] = circ.layout_of(c, orig, gates)
+            other = getattr(orig, "_verif_other", None)
+            if other is not None and variant == "composed":
+                # compose() must not entangle the two circuits: extend the composed one, then re-observe the argument
+                b, h = other
+                extra = circ.make_gate(be, {"how": "fwd", "k": "map", "qs": [1], "m": [[3, 0], [1, 0]], "mi": [[3, 0], [1, 0]]}, n, 0)
+                orig.take(extra)
+                z = be.plist(lst)
+                b.forward(z)
+                rec["other"] = {"h": h, "ins": lst, "fwd": be.p_list(z)}
         except Exception as e:
             rec["exc"] = _exc(e)
             import traceback
